@@ -179,7 +179,7 @@ P("C12",
   assumptions=["halves are distinct owned values; the crate contains no unsafe, static mut, Cell/RefCell, atomics, locks or thread_local (checked syntactically on every run)"])
 for _h, _t in [("c11_typed_helpers", 900), ("c11_read_client", 1800), ("c11_read_server", 1800), ("c11_write_client", 1800), ("c11_write_server", 1800),
                ("c11_read_client_facade", 1800), ("c11_read_server_facade", 1800), ("c11_write_client_facade", 1800), ("c11_write_server_facade", 1800)]:
-    H("C11", "vanilla_header", _h, timeout=_t,
+    H("C11", "vanilla_header", _h, timeout=_t, tiers=(["thorough"] if _h.endswith("_facade") else ["quick", "thorough"]),
       encodes=["vanilla_header::{EncrypterHalf,DecrypterHalf,HeaderCrypto}::* header entry points", "ServerHeader::from_array", "ClientHeader::from_array"],
       inputs="arbitrary combined cipher state; arbitrary size/opcode or wire bytes; nondeterministic reader/writer",
       asserts="typed helper / facade / accessor / Read / Write wrapper == raw operation on the wire layout (size BE, opcode LE) with the same post-state; failed read leaves the decrypter unchanged; failing writer reported",
@@ -193,7 +193,7 @@ for _h in ["c12_frame", "c12_split_unsplit"]:
 
 for _h, _t in [("c11_tbc_typed_helpers", 900), ("c11_tbc_read_client", 1800), ("c11_tbc_read_server", 1800), ("c11_tbc_write_client", 1800), ("c11_tbc_write_server", 1800),
                ("c11_tbc_read_client_facade", 1800), ("c11_tbc_read_server_facade", 1800), ("c11_tbc_write_client_facade", 1800), ("c11_tbc_write_server_facade", 1800)]:
-    H("C11", "tbc_header", _h, timeout=_t,
+    H("C11", "tbc_header", _h, timeout=_t, tiers=(["thorough"] if _h.endswith("_facade") else ["quick", "thorough"]),
       encodes=["tbc_header::{EncrypterHalf,DecrypterHalf,HeaderCrypto}::* header entry points"],
       inputs="arbitrary combined cipher state; arbitrary size/opcode or wire bytes; nondeterministic reader/writer",
       asserts="as the vanilla C11 harnesses, over the TBC types",
@@ -269,7 +269,7 @@ H("C10", "wrath_header", "c10_write", timeout=1200,
 for _h in ["c11_wrath_client_header_enc", "c11_wrath_client_header_dec", "c11_wrath_server_header_enc", "c11_wrath_server_header_dec",
            "c11_wrath_read_client", "c11_wrath_read_server", "c11_wrath_write_client", "c11_wrath_write_server",
            "c11_wrath_read_client_facade", "c11_wrath_read_server_facade", "c11_wrath_write_client_facade", "c11_wrath_write_server_facade"]:
-    H("C11", "wrath_header", _h, timeout=1800,
+    H("C11", "wrath_header", _h, timeout=1800, tiers=(["thorough"] if _h.endswith("_facade") else ["quick", "thorough"]),
       encodes=["wrath_header::{ClientCrypto,ServerCrypto,ClientEncrypterHalf,ServerEncrypterHalf,ClientDecrypterHalf,ServerDecrypterHalf}::* header entry points"],
       inputs="arbitrary cipher states; arbitrary size/opcode or wire bytes; nondeterministic reader/writer",
       asserts="helpers/facade/accessors == raw operation on the wire layout; failed read leaves the decrypter unchanged (5-byte header failing at byte 5: state of the 4-byte attempt, completable later); failing writer reported",
